@@ -308,3 +308,247 @@ def replay_aggr(d, real_factory):
         return None
     if r is None: return None
     return aggr_failure(g, filt, params, [real.rows[i] for i in sorted(real.rows)], r[0], r[1])
+
+
+# ---------------------------------------------------------------------------------------------- GROUP BY / several aggregates (coq/Model/C01Group.v)
+# items: list of ('key', e) | <aggregate tuple as above>; select((i1, ..., in) for p in P [if filt])
+
+GROUP_HEADER = AGGR_HEADER.replace('PonyV.Model.C01Aggr.', 'PonyV.Model.C01Aggr PonyV.Model.C01Group.')
+
+
+def item_src(it):
+    return L.src(it[1]) if it[0] == 'key' else agg_src(it)
+
+
+def gqsrc(items, filt):
+    return 'select((%s) for p in P%s)' % (', '.join(item_src(it) for it in items), '' if filt is None else ' if ' + L.src(filt))
+
+
+def items_coq(items):
+    return '[%s]' % '; '.join('(SKey %s)' % L.coq(it[1]) if it[0] == 'key' else '(SAgg %s)' % agg_coq(it) for it in items)
+
+
+def items_json(items):
+    return [['key', L.to_json(it[1])] if it[0] == 'key' else to_json(it) for it in items]
+
+
+def items_from_json(js):
+    return [('key', L.from_json(j[1])) if j[0] == 'key' else from_json(j) for j in js]
+
+
+def qitem_term(col):
+    try: return '(QAggr %s)' % qaggr_term(col)
+    except L.Unmodelled: return '(QKey %s)' % L.qx(col)
+
+
+def gtranslate(provider, items, filt, params):
+    from pony import orm
+    db, P = L.get_db(provider)
+    with orm.db_session:
+        q = orm.select(gqsrc(items, filt)[len('select('):-1], query_globals(P, params))
+        t = q._translator
+        if t.having_conditions or not t.aggregated or t.sqlquery.from_ast[0] != 'FROM' or len(t.sqlquery.from_ast) != 2 or len(t.expr_columns) != len(items):
+            raise L.Unmodelled('not a grouped query over one table')
+        cols = '[%s]' % '; '.join(qitem_term(c) for c in t.expr_columns)
+        gb = '[%s]' % '; '.join(L.qx(c) for m in (t.groupby_monads or []) for c in m.getsql())
+        conds = '[%s]' % '; '.join(L.qx(c) for c in t.conditions)
+        return cols, gb, conds, q.get_sql(), L.strip_ast([t.conditions, t.expr_columns, [m.getsql() for m in (t.groupby_monads or [])]])
+
+
+def grun(real, items, filt, params, raw=False):
+    orm = real.orm
+    with orm.db_session:
+        q = orm.select(gqsrc(items, filt)[len('select('):-1], query_globals(real.P, params))
+        if raw:
+            sql, arguments, _, _ = q._construct_sql_and_arguments()
+            return [tuple(r) for r in real.db._exec_sql(sql, arguments).fetchall()], sql
+        return [tuple(r) for r in q]
+
+
+def greference(items, filt, params, rows):
+    """Rows grouped by the values of the key items (order of first appearance); aggregates per group."""
+    kept = []
+    for row in rows:
+        try:
+            if filt is not None and 'zero-division' in L.hazards(filt, row, params): raise Skip()
+            if filt is None or L.keeps(filt, row, params, False): kept.append(row)
+        except L.RefError:
+            raise Skip()
+    keys = [it[1] for it in items if it[0] == 'key']
+    def keyval(row):
+        out = []
+        for e in keys:
+            try:
+                if 'zero-division' in L.hazards(e, row, params): raise Skip()
+                v = L.ref(e, row, params, False)
+            except L.RefError:
+                raise Skip()
+            out.append((type(v).__name__, v))
+        return tuple(out)
+    if keys:
+        groups, order = {}, []
+        for row in kept:
+            k = keyval(row)
+            if k not in groups: groups[k] = []; order.append(k)
+            groups[k].append(row)
+        glist = [(k, groups[k]) for k in order]
+    else:
+        glist = [((), kept)]
+    out = []
+    for k, grp in glist:
+        vals, ki = [], 0
+        for it in items:
+            if it[0] == 'key': vals.append(k[ki][1]); ki += 1
+            else: vals.append(reference(it, None, params, grp))
+        out.append(tuple(vals))
+    return out
+
+
+def same_rows(got, want):
+    if len(got) != len(want): return False
+    rest = list(got)
+    for w in want:
+        for i, g in enumerate(rest):
+            if len(g) == len(w) and all(same(a, b) for a, b in zip(g, w)):
+                del rest[i]; break
+        else:
+            return False
+    return True
+
+
+ROWS_SAME = ('(fun (a b : list (list qv)) => let cell := %s in let row := (fix eq (x y : list qv) := match x, y with [], [] => true | u :: x1, v :: y1 => cell u v && eq x1 y1 | _, _ => false end) in '
+             'Nat.eqb (length a) (length b) && forallb (fun r => existsb (row r) b) a && forallb (fun r => existsb (fun s => row s r) a) b)' % QV_SAME)
+
+
+def gen_group_queries(ctx, n):
+    rng = ctx.rng
+    g = L.Gen(rng)
+    hand = [
+        ([('key', ('attr', 'g')), ('count_obj',)], None), ([('count_obj',), ('agg', 'sum', False, ('attr', 'a'))], None),
+        ([('key', ('attr', 'r')), ('agg', 'sum', False, ('attr', 'a')), ('agg', 'max', False, ('attr', 'b'))], ('cmp', '>', ('attr', 'b'), ('int', 0))),
+        ([('key', ('arith', '+', ('attr', 'r'), ('int', 1))), ('key', ('attr', 's')), ('count_rows',)], None),
+        ([('agg', 'sum', False, ('attr', 'a')), ('key', ('attr', 'r'))], None),
+        ([('key', ('attr', 'a')), ('agg', 'count', True, ('attr', 's')), ('agg', 'avg', False, ('attr', 'b'))], None),       # NULL keys form one group
+        ([('agg', 'min', False, ('attr', 's')), ('agg', 'max', False, ('attr', 's'))], ('cmp', '>', ('attr', 'a'), ('int', 100))),   # no rows, no keys: one row
+        ([('key', ('attr', 'f')), ('agg', 'sum', False, ('attr', 'r'))], ('cmp', '>', ('attr', 'a'), ('int', 100))),                 # no rows, keys: no row
+    ]
+    out = [(i, f, {}) for i, f in hand]
+    while len(out) < n + len(hand):
+        g.reset()
+        items = []
+        for _ in range(rng.choice((0, 1, 1, 2))):
+            items.append(('key', g.value(rng.choice(L.VT), rng.choice((1, 1, 2)), True)))
+        for _ in range(rng.choice((1, 1, 2))):
+            r = rng.random()
+            if r < 0.15: items.append(('count_rows',))
+            elif r < 0.3: items.append(('count_obj',))
+            else:
+                f = rng.choice(('count', 'sum', 'sum', 'min', 'max', 'avg'))
+                t = rng.choice(AGG_TYPES[f])
+                items.append(('agg', f, True if f == 'count' else (rng.random() < 0.25 if f in ('sum', 'avg') else False), g.value(t, rng.choice((1, 1, 2)), True)))
+        if len(items) < 2: continue
+        rng.shuffle(items)
+        filt = g.filter_expr(rng.choice((2, 3))) if rng.random() < 0.6 else None
+        out.append((items, filt, dict(g.params)))
+    return out
+
+
+def group_cases(ctx, queries, real):
+    exprs, meta, dis, nontriv = [], [], [], set()
+    dist = {'select_lists': 0, 'sqlite_result_lists': 0, 'translator_raises': 0}
+    for items, filt, params in queries:
+        for prov in ('sqlite', 'postgres', 'mysql', 'oracle'):
+            if prov == 'oracle' and any(v == '' for v in params.values()): continue
+            inp = {'provider': prov, 'query': gqsrc(items, filt), 'params': params}
+            try:
+                cols, gb, conds, sql, dump = gtranslate(prov, items, filt, params)
+            except L.Unmodelled as ex:
+                dis.append({'what': 'grouped query outside the modelled shapes: %s' % ex, 'input': inp}); continue
+            except Exception as ex:
+                dist['translator_raises'] += 1
+                dis.append({'what': 'the real translator raised on a typed grouped query', 'input': inp, 'impl': '%s: %s' % (type(ex).__name__, str(ex)[:200])}); continue
+            d = L.DN[prov]
+            m = dict(inp, impl=dump)
+            exprs.append('oqitems_eqb (tr_items %s %s) %s && oqxs_eqb (option_map qkeys (tr_items %s %s)) (Some %s) && oqxs_eqb %s (Some %s)' % (
+                d, items_coq(items), cols, d, items_coq(items), gb, '(tr_filter %s %s)' % (d, L.coq(filt)) if filt is not None else '(Some [])', conds))
+            meta.append(dict(m, mode='group-select-list')); dist['select_lists'] += 1
+            nontriv.add((prov, gqsrc(items, filt)))
+            if prov == 'sqlite':
+                try:
+                    rows, sql = grun(real, items, filt, params, raw=True)
+                except Exception as ex:
+                    dis.append({'what': 'real SQLite raised on a grouped query', 'input': inp, 'impl': '%s: %s' % (type(ex).__name__, ex)}); continue
+                def cell(v):
+                    r = coq_result(v)
+                    return '(FracV %s %s)' % (vlib.cz(r.numerator), vlib.cz(r.denominator)) if isinstance(r, Fraction) else r
+                got = '[%s]' % '; '.join('[%s]' % '; '.join(cell(v) for v in r) for r in rows)
+                exprs.append('(let PARAMS := %s in %s (sql_group_rows DSqlite %s %s %s) %s)' % (L._coq_fn(list(params.items())), ROWS_SAME, cols, conds, env_list(real, params), got))
+                meta.append(dict(m, mode='group-rows', impl=rows, sql=sql)); dist['sqlite_result_lists'] += 1
+    return exprs, meta, dis, nontriv, dist
+
+
+def gclassify(items, filt, params, rows):
+    for it in items:
+        k = classify(it if it[0] != 'key' else ('agg', 'min', False, it[1]), filt, params, rows)
+        if not k.startswith('unlisted'): return k
+    return 'unlisted:aggregate:group'
+
+
+def check_group_query(real, items, filt, params):
+    rows = [real.rows[i] for i in sorted(real.rows)]
+    try:
+        want = greference(items, filt, params, rows)
+    except Skip:
+        return None
+    got = grun(real, items, filt, params)
+    if same_rows(got, want): return None
+    return got, want
+
+
+def group_failure(items, filt, params, rows, got, want):
+    key = gclassify(items, filt, params, rows)
+    what = '%s with %s over %d rows: Pony gives %r, grouping the comprehension gives %r' % (
+        gqsrc(items, filt), {('x%d' % i): v for i, v in sorted(params.items())}, len(rows), got[:6], [tuple(str(c) if isinstance(c, Fraction) else c for c in r) for r in want[:6]])
+    return Failure(key, what, {'group': {'items': items_json(items), 'filt': L.to_json(filt) if filt is not None else None,
+                                         'params': {str(i): v for i, v in params.items()}, 'rows': [{k: v for k, v in r.items() if k != 'id'} for r in rows]}})
+
+
+def group_search(ctx, queries, real, real_factory, max_per_key=1):
+    failures, seen, evals, nontriv = [], {}, 0, set()
+    dist = {'queries': 0, 'pony_raises': {}, 'failing_queries_by_key': seen}
+    rows = [real.rows[i] for i in sorted(real.rows)]
+    for items, filt, params in queries:
+        dist['queries'] += 1
+        try:
+            r = check_group_query(real, items, filt, params)
+        except Exception as ex:
+            n = type(ex).__name__; dist['pony_raises'][n] = dist['pony_raises'].get(n, 0) + 1; continue
+        evals += 1
+        if r is None:
+            nontriv.add(gqsrc(items, filt)); continue
+        key = gclassify(items, filt, params, rows)
+        seen[key] = seen.get(key, 0) + 1
+        if seen[key] <= max_per_key:
+            cur = list(rows); i = 0
+            while i < len(cur) and len(cur) > 1:
+                cand = cur[:i] + cur[i + 1:]
+                try: rr = check_group_query(real_factory(cand), items, filt, params)
+                except Exception: rr = None
+                if rr is not None and gclassify(items, filt, params, cand) == key: cur = cand
+                else: i += 1
+            rr = check_group_query(real_factory(cur), items, filt, params) or r
+            failures.append(group_failure(items, filt, params, cur, rr[0], rr[1]))
+    return evals, failures, nontriv, dist
+
+
+def replay_group(d, real_factory):
+    items = items_from_json(d['items'])
+    filt = L.from_json(d['filt']) if d['filt'] is not None else None
+    params = {int(k): v for k, v in d['params'].items()}
+    real = real_factory(d['rows'])
+    try:
+        r = check_group_query(real, items, filt, params)
+    except Exception:
+        return None
+    if r is None: return None
+    return group_failure(items, filt, params, [real.rows[i] for i in sorted(real.rows)], r[0], r[1])
